@@ -66,6 +66,46 @@ CHECKS = {
    "Liveness is restated as no wait-for cycle + bounded progress. Pairs of batches over ordered key selections are steered (A parked after its i-th lock until B reaches its j-th or a budget expires) for every position pair; 32 goroutines add random load with yields inside the interposer; a cycle found in the shadow graph is a proved deadlock. A finite run cannot decide liveness in general.",
    "Shadow holds are recorded after acquisition and cleared before release, so a shadow cycle is a real one.",
    "5/C15"),
+ "C12": ("exploration",
+   "runtime monitor: DKG consistency oracle over real multi-instance generations (all (n,t), id sets, initiators, commit arrival orders, tampered replies, retry after partial commit)",
+   "Real key generations on in-process clusters of real instances (real wallets, receiver handlers, process services; a routing sender replaces the transport) for every n in 2..7 and every t in 0..n+1; after each success the accounts are read back from every participant's store and checked (composite = returned key, same vector of t entries, threshold, participants, share consistent), every participant signs and lists without restart, all t-subsets recover and (t-1)-subsets do not; out-of-range t must be refused and create nothing; tampered commit replies and a retry after a partially committed attempt must never yield an inconsistent success.",
+   "herumi polynomial evaluation / recovery used by the oracle; transport replaced in-process.",
+   "5/C12"),
+ "C13": ("fault_enumeration",
+   "fault injection at every position of the prepare/execute/contribute message sequence (request and reply legs) with a no-account-anywhere / receiver-rejects / process-survives oracle, in child processes",
+   "For (n,t) in {(2,2),(3,2),(3,3),(4,3),(5,3)}: each fault kind (lost, error reply, duplicate, random share, genuine share for another id, altered commitment, genuine vector too short / too long) is injected at every message position, on requests and on contribution replies; the generation must fail, no participant may hold the account, the receiver must reject an invalid contribution, and the process must survive (a death is attributed to the last logged case).",
+   "Faults injected by the routing sender; duplicate execute/contribute deliveries are judged only by consistency of a successful result.",
+   "5/C13"),
+ "C14": ("exploration",
+   "runtime monitor: valid-partial-signature counting over exhaustive / sampled routings of conflicting duty pairs across real instances of a distributed account",
+   "For every (n,t) that generation accepts on clusters of 2..4 instances (each with its own slashing database), four kinds of conflicting duty pairs are routed to the instances in every combination of {none, D1, D2, both orders, concurrently, second duty hidden in a two-entry batch}; partial signatures are verified under the share keys; both duties must never reach t, and a duty that does must recover to a signature valid under the composite key.",
+   "All t for each n are attempted so that a weakened threshold bound would be exercised.",
+   "5/C14"),
+ "C16": ("exploration",
+   "runtime monitor: rogue-caller matrix on the receiver handlers followed by completion of the legitimate generation; share-ownership assertion on every contribution exchange",
+   "Each protocol message x session state x non-peer caller kind (full-permission client, unknown, empty, no identity, near-miss peer names) is sent with hostile content; it must be refused, and the legitimate generation must then still complete with its original parameters and pass the consistency oracle; every contribution request/reply observed must be the share of exactly its addressee.",
+   "Caller identity injected the way the ClientInfo interceptor does (C19 covers real certificates).",
+   "5/C16"),
+ "C17": ("exploration",
+   "runtime monitor: three-valued session model with an interval clock over seeded event sequences on real instances",
+   "Seeded sequences of prepare/execute/commit/abort/fabricated contributions/sleeps over two names on 3-instance clusters with a 1.5 s timeout; only the stated implications are asserted and only where the interval clock decides the session's state (unknown otherwise).",
+   "Expiry is real-time in the code; assertions are skipped in the timing grey zone.",
+   "5/C17"),
+ "C18": ("exploration",
+   "differential monitor: real lister over a real fetcher vs reference permission model (soundness, completeness, key fidelity), before and after dynamic account creation",
+   "150+ generated permission tables x 12 path lists (wallet-only, expressions, unknown, malformed, duplicates) at service and handler boundary on a real fetcher; the same after accounts are created through Dirk (single and 2-of-2 distributed generation).",
+   "Completeness uses the narrowest reading of 'matches'.",
+   "5/C18"),
+ "C19": ("exploration",
+   "runtime monitor on the real daemon over TLS/gRPC: 16 methods x 11 caller credential kinds x 2 CA configurations, with state-effect check on the stopped daemon's directories",
+   "Every RPC of every registered service is called on a real dirk child process with certificates generated at run time; callers without a certificate from the configured authority must obtain nothing and change nothing, accepted callers get exactly what the permission table gives their subject common name (SAN and extra chain certificates must not count).",
+   "Loopback TCP; state effects read after the daemon stops.",
+   "5/C19"),
+ "C20": ("exploration",
+   "crash monitor: structure-aware hostile inputs + byte mutations against the real handlers (child process, inputs logged first, 8 GiB address-space cap) and against the real daemon over the wire, with canaries",
+   "Tens of thousands of hostile requests for all 16 methods; a process death or an unanswered canary is a violation attributed to the last logged input.",
+   "A crash means process death or a failed canary; an error reply is fine.",
+   "5/C20"),
 }
 
 NOT_YET = {
